@@ -172,6 +172,10 @@ func optionalEmpty(k string, i int) bool {
 		return i == 1
 	case "telemetry":
 		return true
+	case "ospath":
+		return i == 1
+	case "oslink":
+		return i == 1 || i == 2
 	}
 	return false
 }
@@ -236,4 +240,51 @@ func SpecRegularOrEmpty(s *Spec) bool {
 		}
 	}
 	return true
+}
+
+// repeatable: annotation kinds for which the same content on two
+// layers of one tree is ordinary (and where de-duplication, set union
+// or "outermost wins" logic lives).
+var repeatable = []string{"hint", "hintf0", "detail", "detailf0", "telemetry", "domain", "issuelink", "tags", "withmsg", "wrap", "httpcode", "grpccode", "safedetails"}
+
+// SprinkleRepeats makes some annotation layers of the tree carry the
+// same content as an earlier layer of the same kind (the generator's
+// unique tokens would otherwise never produce a repeated hint, key,
+// domain or tag).
+func SprinkleRepeats(t *rapid.T, s *Spec) {
+	nodes := s.Nodes()
+	for i, n := range nodes {
+		if !in(n.K, repeatable) {
+			continue
+		}
+		for _, m := range nodes[i+1:] {
+			if m.K == n.K && len(m.S) == len(n.S) && len(m.I) == len(n.I) && rapid.IntRange(0, 2).Draw(t, "repeat") == 0 {
+				copy(m.S, n.S)
+				copy(m.I, n.I)
+			}
+		}
+	}
+}
+
+// WithRepeatedAnnotations wraps s in 2-5 hint / detail / telemetry /
+// domain layers whose contents come from a pool of two strings, so
+// that equal and different contents alternate in one chain (what
+// de-duplication and ordering logic is about).
+func WithRepeatedAnnotations(t *rapid.T, g *Cfg, s *Spec) *Spec {
+	pool := []string{g.Str(t, "poolA"), g.Str(t, "poolB")}
+	k := rapid.SampledFrom([]string{"hint", "hint", "detail", "telemetry", "domain"}).Draw(t, "repeatedkind")
+	for i, n := 0, rapid.IntRange(2, 5).Draw(t, "repeats"); i < n; i++ {
+		w := g.WrapOf(t, k, s)
+		v := pool[rapid.IntRange(0, 1).Draw(t, "which")]
+		if k == "telemetry" {
+			w.S = []string{v}
+		} else {
+			w.S[0] = v
+		}
+		if k == "domain" {
+			w.I = []int{0}
+		}
+		s = w
+	}
+	return s
 }
